@@ -1667,3 +1667,75 @@ mut("c05-stuck-verdict-for-finished-parser", "C05", "src/parser/request.rs",
     """        if !done && self.input_len == self.input.len() {""",
     """        if (!done || rem_len > 0) && self.input_len == self.input.len() {""",
     "R5.8/parse/stuck-detection", "a finished parser whose buffer is filled with look-ahead is overwritten with StuckOnInput")
+
+# ---- round m follow-ups ----------------------------------------------------------------------------------
+mut("c12-epilogue-write-result-abandoned-on-close-path", "C12", A,
+    """        output.write_all(&endreq).await?;
+        crate::macros::trace!("management records flushed");
+
+        // Extract request::Parser if connection should be reused
+        if self.parser.request.flags.contains(fcgi::RequestFlags::KeepConn) {""",
+    """        let sent = output.write_all(&endreq).await;
+        crate::macros::trace!("management records flushed");
+
+        // Extract request::Parser if connection should be reused
+        if self.parser.request.flags.contains(fcgi::RequestFlags::KeepConn) {
+            sent?;""",
+    "R12.8/async_io::Request::close/inspected-on-every-path[sent]", "the result of the epilogue write is looked at only when the connection is kept; otherwise it is dropped and ConnectionReset is reported instead of the write error")
+mut("c05-parse-retried-with-spent-count", "C05", A,
+    """            let status = parser.parse(read);
+            if !status.output.is_empty() {
+                output.write_all(status.output).await?;
+                crate::macros::trace!("management records flushed");
+            }""",
+    """            let status = parser.parse(read);
+            if !status.output.is_empty() {
+                if let Err(e) = output.write_all(status.output).await {
+                    if e.kind() == io::ErrorKind::Interrupted { continue; }
+                    return Err(e);
+                }
+                crate::macros::trace!("management records flushed");
+            }""",
+    "R5.9/parse_request/count-used-once", "an interrupted reply write loops back to parse(read) with the count of the previous read")
+mut("c02-payload-step-reports-full-destination-as-error", "C02", "src/parser/stream.rs",
+    """        assert!(new_input <= self.buffer.len() - self.free_start);
+        self.free_start += new_input;
+""",
+    """        assert!(new_input <= self.buffer.len() - self.free_start);
+        self.free_start += new_input;
+        if matches!(dest, Some(ref d) if d.is_empty()) && self.raw_start < self.free_start {
+            return Err(Error::StuckOnInput);
+        }
+""",
+    "R2.9/Parser::parse/no-error-constructed", "an empty destination with buffered protocol data is reported as an error: the outcome depends on the caller's buffer, not on the records")
+mut("c01-pair-buffer-cleared-when-record-ends-mid-pair", "C01", "src/parser/request.rs",
+    """        if body_buffered.saturating_add(data.len()) < body_len {
+            if rec_end {
+                self.buffer.extend(&*data);
+                return &mut [];
+            }
+            return data;
+        }""",
+    """        if body_buffered.saturating_add(data.len()) < body_len {
+            if rec_end {
+                if self.buffer.len() + data.len() > usize::from(u16::MAX) {
+                    self.buffer.clear();
+                    return &mut [];
+                }
+                self.buffer.extend(&*data);
+                return &mut [];
+            }
+            return data;
+        }""",
+    "R1.10/ParamsStateInner::parse_buffered/clear", "a pair spread over more than 65535 buffered bytes is dropped instead of collected ('defensive' cap)")
+mut("c17-reply-header-content-length-capped", "C17", "src/protocol/vars.rs",
+    """        head.set_lengths(len as u16);
+""",
+    """        head.set_lengths(len as u16);
+        head.content_length = head.content_length.min((Self::RESPONSE_LEN - RecordHeader::LEN) as u16);
+""",
+    "R17.5/write_response/header-as-sized", "the content length of the reply header is clamped after set_lengths sized the record")
+mut("c19-lookup-key-trimmed-of-whitespace", "C19", "src/cgi/mod.rs",
+    """        Self(match name.parse() {""",
+    """        Self(match name.trim().parse() {""",
+    "R19.5/from_compact/lookup-key", "the interning lookup ignores surrounding whitespace: ' HTTPS' is interned as HTTPS by the normalising constructors only")
